@@ -167,7 +167,7 @@ class C13(Check):
     design_ref = 'DESIGN.md 3.7'
     runs = {'quick': 1200, 'thorough': 15000}
     shrink_lists = (('ops',),)
-    hashseeds = {'quick': ['1:O'], 'thorough': ['1:O', 2]}
+    hashseeds = {'quick': ['1:OA'], 'thorough': ['1:OA', 2]}
     rule = ('one application exposing every response kind (plain, streamed, rendered context, static files small/big/missing, '
             'slash redirect, 404, 405, 500 default/debug, raised HTTPException, meta pages, gzip- and cache-processed, '
             'RerouteWSGI raised / as endpoint, embedded application) behind generated stacks of wsgi_wrapper middlewares at '
